@@ -176,6 +176,17 @@ Theorem C20_timespan_scale : forall t k,
   (eval (OpTsDiv t (NInt 0)) = VErr ZeroDiv /\ forall d, eval (OpTsDiv t (NFloat 0 d)) = VErr ZeroDiv).
 Proof. exact (fun t k => conj (scale_by_integer t k) (conj (scale_then_divide t k) (divide_by_zero t))). Qed.
 
+(* timespan(...) takes integer components of ANY magnitude (nothing is word-sized): the result is the
+   sum of the components whenever that sum is a timedelta (-999999999 days <= t < 10^9 days), else a
+   range error; every timespan x in that range round-trips: timespan(microseconds => x.microseconds) = x *)
+Theorem C20_timespan_any_magnitude : forall d h m s ms us,
+  eval (OpTimespan d h m s ms us) =
+    (if ts_in_range (timespan_of d h m s ms us) then VTs (timespan_of d h m s ms us) else VErr RangeErr) /\
+  (forall t, ts_in_range t = true <-> - 999999999 * 86400000000 <= t < 1000000000 * 86400000000) /\
+  (forall t, ts_in_range t = true ->
+     eval (OpTimespan 0 0 0 0 0 t) = VTs t /\ eval (OpUnit UMicroseconds t) = VInt t).
+Proof. exact timespan_guard. Qed.
+
 (* scaling by any number: n * t = t * n; the result is the timespan nearest the exact rational
    t * n resp. t / n (window: half a microsecond + 2^-51 relative) or a range error *)
 Theorem C20_timespan_scale_rational : forall t x,
@@ -328,6 +339,7 @@ Print Assumptions C20_fields_determine_reading.
 Print Assumptions C20_civil_inverse.
 Print Assumptions C20_fields_roundtrip.
 Print Assumptions C20_timespan_scale.
+Print Assumptions C20_timespan_any_magnitude.
 Print Assumptions C20_timespan_order.
 Print Assumptions C20_replace.
 Print Assumptions C20_date_plus_time.
